@@ -110,7 +110,12 @@ type WaitSummary struct {
 	Skipped   int    `json:"skipped"`
 	MaxParked int    `json:"max_parked"`
 	Leaked    int    `json:"leaked"`
+	// Classes counts the requests sent by class (kind of frame / what the dispatcher did with it after the broadcast)
+	Classes map[string]int `json:"classes"`
 }
+
+// classCounter is implemented by bindings that classify the requests they send.
+type classCounter interface{ Classes() map[string]int }
 
 type wState struct {
 	Via  bool            `json:"via"`
@@ -411,6 +416,9 @@ func runWalk(wk WaitWalk, b WaitBinding, grace time.Duration, maxPark int, rnd *
 	}
 	sum.Leaked = w.openCalls()
 	sum.Slow = w.slow
+	if cc, ok := b.(classCounter); ok {
+		sum.Classes = cc.Classes()
+	}
 	b.Close()
 	sum.Walks = 1
 	return recs, sum
@@ -477,6 +485,12 @@ func RunWaitPlan(mk func(r *mrand.Rand) (WaitBinding, error)) (WaitSummary, erro
 			total.Panics += s.Panics
 			total.Skipped += s.Skipped
 			total.Leaked += s.Leaked
+			for k, v := range s.Classes {
+				if total.Classes == nil {
+					total.Classes = map[string]int{}
+				}
+				total.Classes[k] += v
+			}
 			if s.MaxParked > total.MaxParked {
 				total.MaxParked = s.MaxParked
 			}
